@@ -208,6 +208,16 @@ inline Structure gen_structure(uint64_t seed, const GenOpt& g) {
           for (Atom& a : res.atoms) {
             a.pos.y = r.range(-4999, 4999) / 1000.;
             a.serial = ++serial;
+            // displacement parameters differ between models (or exist in one model only)
+            if (a.aniso.nonzero()) {
+              if (r.chance(20)) {
+                a.aniso = {0, 0, 0, 0, 0, 0};
+              } else {
+                a.aniso.u11 += r.range(1, 400) * 1e-4f;
+                a.aniso.u23 += r.range(-50, 50) * 1e-4f;
+              }
+            }
+            if (r.chance(30)) a.b_iso += r.range(1, 300) / 100.f;
           }
       st.models.push_back(copy);
       continue;
